@@ -1013,12 +1013,17 @@ func selectCaseBlock(sel *ssa.Select, k int) *ssa.BasicBlock {
 }
 
 func c02TargeterErrorStops(c *Ctx, a *attackAnchors) {
+	withInline(func() { c02TargeterErrorStopsIn(c, a) }, a.Hit)
+}
+
+func c02TargeterErrorStopsIn(c *Ctx, a *attackAnchors) {
 	const rule = "in hit, the error edge of the Targeter call passes through a.Stop() before returning"
 	key := "targeter-error-stops:" + shortFn(a.Hit)
 	var tcall *ssa.Call
-	eachInstr(a.Hit, func(i ssa.Instruction) {
+	// hit may hand the exchange to a single-site helper (roundTrip(tr, atk, &res)): analysed as inlined
+	eachInstrI(a.Hit, func(i ssa.Instruction) {
 		if call, ok := i.(*ssa.Call); ok && !call.Call.IsInvoke() {
-			if p, ok := call.Call.Value.(*ssa.Parameter); ok && isNamedType(p.Type(), "lib", "Targeter") {
+			if p, ok := rootVal(call.Call.Value).(*ssa.Parameter); ok && p.Parent() == a.Hit && isNamedType(p.Type(), "lib", "Targeter") {
 				tcall = call
 			}
 		}
@@ -1027,7 +1032,7 @@ func c02TargeterErrorStops(c *Ctx, a *attackAnchors) {
 		c.Undecided(key, rule, "no call of the Targeter parameter in hit", c.fnAt(a.Hit))
 		return
 	}
-	ifi := errNotNilIf(tcall, tcall)
+	ifi := errNotNilIfI(tcall)
 	if ifi == nil {
 		c.Fail(key, rule, "the Targeter's error is not tested", c.at(tcall))
 		return
